@@ -1119,6 +1119,11 @@ class Engine:
             return VBool(self.uf(f"has_{nm.lit}", [OBJ], B)(base.t))
         raise Undecided("hasattr", line)
 
+    def bi_bool(self, args, kw, env, pc, line):
+        if not args:
+            return VBool(z3.BoolVal(False))
+        return VBool(self.truth(args[0]))
+
     def bi_callable(self, args, kw, env, pc, line):
         if isinstance(args[0], VObj):
             return VBool(self.uf("callable", [OBJ], B)(args[0].t))
@@ -1127,6 +1132,10 @@ class Engine:
     def method_call(self, recv, attr, args, kw, e, env, pc):
         line = e.lineno
         key = None
+        if isinstance(recv, VOpt):
+            # None has none of the methods modelled here: AttributeError on that path, the value's method otherwise
+            self.may_raise("AttributeError", recv.isnone, pc, line, f"{attr}-of-None")
+            return self.method_call(recv.val, attr, args, kw, e, env, pc)
         if isinstance(recv, VRec):
             key = f"{recv.cls}.{attr}"
         elif isinstance(recv, VStr):
